@@ -100,6 +100,23 @@ Check C03_rename_column_names_refuted :
   run_plan w_ix [RenameColumn "t" "a" "b"; RemoveConstraint "t" (CIndex None ["b"])]
   = Some (Err (1, 0, ENoIndex "ix_t__b"))%nat.
 
+(* D18, the sequel one migration later: the replayed baseline holds two primary keys (RemoveConstraint compares by
+   equality and missed the shrunk key), a foreign key to the intended key has no unique index to use *)
+Theorem C03_stale_key_refuted :
+  run_plan (after_of w_stale0 w_stale_plan)
+    [AddColumn "a" (ncol "b_author_id" (TSimple Integer)) None;
+     AddConstraint "a" (CForeignKey None ["b_author_id"] "a_b" ["author_id"] None None)]
+  = Some (Err (1, 0, EFkNoUniqueTarget "a" "a_b"))%nat.
+Proof. exact stale_key_refuted. Qed.
+Print Assumptions C03_stale_key_refuted.
+Check C03_stale_key_refuted :
+  run_plan (after_of w_stale0 w_stale_plan)
+    [AddColumn "a" (ncol "b_author_id" (TSimple Integer)) None;
+     AddConstraint "a" (CForeignKey None ["b_author_id"] "a_b" ["author_id"] None None)]
+  = Some (Err (1, 0, EFkNoUniqueTarget "a" "a_b"))%nat.
+Example ex_stale_key_shape : base_stale_key_tables (after_of w_stale0 w_stale_plan) = ["a_b"] /\ base_stale_key_tables w_d2 = [].
+Proof. vm_compute. split; reflexivity. Qed.
+
 (* ---------- the simulation invariant Sim s c := c = catalog_of s, lifted over plans and histories (no bound) ---------- *)
 Theorem C03_Sim_plan : forall acts s n,
   all_steps step_sim s acts ->
